@@ -56,8 +56,9 @@ def vstep (cap : Nat) (s : ASt) (t : Bool) : VOp → ASt
   | .clear => s.put t (.vec [])
   | .resize sz => s.put t (onVec (s.get t) (resizeTo · sz 0))
   | .resizev sz v => s.put t (onVec (s.get t) (resizeTo · sz v))
-  | .assignn cnt v => s.put t (.vec (List.replicate cnt v))
-  | .assignr xs => s.put t (.vec xs)
+  | .assignn cnt v | .ctorNV cnt v => s.put t (.vec (List.replicate cnt v))
+  | .assignr xs | .ctorR xs => s.put t (.vec xs)
+  | .ctorN sz => s.put t (.vec (List.replicate sz 0))
   | .eraseIf md r => s.put t (onVec (s.get t) (List.filter (fun x => !(x % md == r))))
   | .cctor | .cassign => s.put t (s.get (!t))
   | .mctor | .massign => (s.put t (s.get (!t))).put (!t) .unspec
@@ -70,6 +71,7 @@ def sstep (cap : Nat) (s : ASt) (t : Bool) : SOp → ASt
   | .eraseAt pos => s.put t (onVec (s.get t) (eraseRange · pos (pos + 1)))
   | .eraseRange f l => s.put t (onVec (s.get t) (eraseRange · f l))
   | .clear | .extract => s.put t (.vec [])
+  | .replace xs => s.put t (.vec xs)
   | .cctor | .cassign => s.put t (s.get (!t))
   | .mctor | .massign => (s.put t (s.get (!t))).put (!t) .unspec
   | .cassignSelf | .swapSelf => s
@@ -77,7 +79,7 @@ def sstep (cap : Nat) (s : ASt) (t : Bool) : SOp → ASt
 
 /-- variant-like owners; `trk j` = alternative `j` carries a value -/
 def xstep (trk : Nat → Bool) (s : ASt) (t : Bool) : XOp → ASt
-  | .emplace j v | .emplaceCopy j v | .emplaceMove j v => s.put t (.alt j (if trk j then some v else none))
+  | .emplace j v | .emplaceCopy j v | .emplaceMove j v | .assignCopy j v | .assignMove j v => s.put t (.alt j (if trk j then some v else none))
   | .optAssignCopy v | .optAssignMove v => s.put t (.alt 1 (some v))
   | .reset => s.put t (.alt 0 none)
   | .cctor | .cassign => s.put t (s.get (!t))
@@ -88,7 +90,7 @@ def xstep (trk : Nat → Bool) (s : ASt) (t : Bool) : XOp → ASt
 
 /-- function wrapper: `alt 0 none` = empty, `alt (j+1) (some v)` = holds a callable of type `j` returning `v` -/
 def fstep (s : ASt) (t : Bool) : FOp → ASt
-  | .ctorCopy j v | .ctorMove j v | .assignCopy j v | .assignMove j v => s.put t (.alt (j + 1) (some v))
+  | .ctorCopy j v | .ctorMove j v | .assignCopy j v | .assignMove j v | .conv _ _ j v => s.put t (.alt (j + 1) (some v))
   | .reset => s.put t (.alt 0 none)
   | .cctor | .cassign => s.put t (s.get (!t))
   | .mctor | .massign => (s.put t (s.get (!t))).put (!t) .unspec
